@@ -653,7 +653,7 @@ Proof.
   destruct e1; cbn [eval].
   - (* ENull *) apply resrel_ret. exact I.
   - (* EBool *) apply resrel_ret. reflexivity.
-  - (* ENum *) destruct (in_range z); [apply resrel_ret; reflexivity|apply resrel_fail].
+  - (* ENum *) destruct (in_range z); [apply resrel_ret; reflexivity|destruct (overflows z); apply resrel_fail].
   - (* EStr *) apply resrel_ret. reflexivity.
   - (* EVar *)
     assert (Hx : fvb x (EVar x) = true) by (simpl; apply name_eqb_refl).
